@@ -45,7 +45,7 @@ func (noRevocations) GetRevocations(ssi.URI) ([]*credential.Revocation, error) {
 	return nil, verifier.ErrNotFound
 }
 func (noRevocations) StoreRevocation(credential.Revocation) error { return nil }
-func (noRevocations) Close() error                                 { return nil }
+func (noRevocations) Close() error                                { return nil }
 
 // verifyHook is called by the instrumented verifier (interface seam vcr.VCR.Verifier()).
 type verifyHook func(vp vc.VerifiablePresentation, err error)
@@ -84,9 +84,9 @@ func newRealVerifier(t testing.TB, db *gorm.DB, dir string) *seamVerifier {
 
 // stmtGate is registered once per database; the driver arms it for one poll.
 type stmtGate struct {
-	inGet   atomic.Bool                                  // the server's Get is executing (set by the adapter)
+	inGet   atomic.Bool                                           // the server's Get is executing (set by the adapter)
 	onQuery atomic.Pointer[func(table string, tx bool, dest any)] // called after every query statement while inGet
-	onWrite atomic.Pointer[func(op, table string)]      // called after every create/update/delete
+	onWrite atomic.Pointer[func(op, table string)]                // called after every create/update/delete
 }
 
 func installGate(db *gorm.DB) (*stmtGate, error) {
